@@ -31,7 +31,7 @@ theorem srcsBefore_of_wellShaped (p : Prog) (h : wellShaped p = true) : srcsBefo
   intro n hn s hs
   have hmem : (p[n], n) ∈ p.zipIdx := by
     rw [List.mem_zipIdx_iff_getElem?]; simp [List.getElem?_eq_getElem hn]
-  have := h.1 (p[n], n) hmem
+  have := h.1.1 (p[n], n) hmem
   simp only [List.all_eq_true, decide_eq_true_eq] at this
   exact this s hs
 
@@ -138,7 +138,7 @@ theorem mem_keptEdges (p : Prog) (n s : ℕ) (hn : n < p.length)
   · rw [List.mem_map]
     refine ⟨(p[n], n), ?_, ?_⟩
     · rw [List.mem_zipIdx_iff_getElem?]; simp [List.getElem?_eq_getElem hn]
-    · simp [hd, hc]
+    · cases hop : p[n] <;> simp_all [Op.defining, Op.isCat]
   · rw [List.mem_map]; exact ⟨s, hs, rfl⟩
 
 theorem label_eq_of_edge (p : Prog) (l : List ℕ) (hok : labelsOK p l = true) (n s : ℕ)
@@ -333,6 +333,7 @@ theorem reach_allTrue (p : Prog) (l : List ℕ) (α : ℕ → List Rat) (hok : l
     | flat s m =>
       simp only [maskStep]
       exact allTrue_expand _ _ (down s (by rw [hop]; simp [Op.inputs]) (by rw [hop]; rfl))
+    | reuse s o ls c a => simp only [maskStep]; exact hown
     | output s => simp only [maskStep]; exact down s (by rw [hop]; simp [Op.inputs]) (by rw [hop]; rfl)
 
 /-- the tensor feeding an excluded layer, and the tensor a network returns, are alive in full -/
@@ -355,6 +356,7 @@ theorem supported_at (p : Prog) (h : supported p = true) (n : ℕ) (hn : n < p.l
       | .tcat ss => ss.all fun s => !((tainted p).getD s false)
       | .dw s _ => !((tainted p).getD s false)
       | .fixedDw s _ => !((tainted p).getD s false)
+      | .reuse s _ ls _ _ => !((tainted p).getD s false) && !((tainted p).getD ls false)
       | _ => true) = true := by
   unfold supported at h
   simp only [List.all_eq_true] at h
@@ -370,7 +372,7 @@ theorem tcat_arity (p : Prog) (h : wellShaped p = true) (n : ℕ) (hn : n < p.le
     (hop : p[n] = .tcat ss) : ss.length = 2 := by
   unfold wellShaped at h
   simp only [Bool.and_eq_true, List.all_eq_true] at h
-  have := h.2 p[n] (List.getElem_mem hn)
+  have := h.1.2 p[n] (List.getElem_mem hn)
   rw [hop] at this
   simp only [Bool.and_eq_true, beq_iff_eq] at this
   exact this.1
@@ -426,10 +428,61 @@ theorem untainted_mask (p : Prog) (l : List ℕ) (α : ℕ → List Rat) (hok : 
         simp only [List.any_cons, Bool.or_eq_false_iff] at ht
         exact prop s (by rw [hop]; simp [Op.inputs]) (by rw [hop]; rfl) (by rw [hop]; rfl) ht.1
     | flat s m => rw [hop] at ht; simp [taintStep] at ht
+    | reuse s o ls c a => simp only [maskStep]
     | output s =>
       rw [hop] at ht; simp only [taintStep] at ht
       simp only [maskStep]
       exact prop s (by rw [hop]; simp [Op.inputs]) (by rw [hop]; rfl) (by rw [hop]; rfl) ht
+
+/-! ### a layer invoked again -/
+
+/-- the two extra edges of a layer invoked again: between its call sites, between its inputs -/
+theorem mem_keptEdges_reuse (p : Prog) (n s o ls c : ℕ) (a : LAttr) (hn : n < p.length)
+    (hop : p[n] = .reuse s o ls c a) : (o, n) ∈ keptEdges p ∧ (ls, s) ∈ keptEdges p := by
+  unfold keptEdges
+  have hmem : (p[n], n) ∈ p.zipIdx := by
+    rw [List.mem_zipIdx_iff_getElem?]; simp [List.getElem?_eq_getElem hn]
+  constructor <;>
+  · rw [List.mem_flatten]
+    refine ⟨[(o, n), (ls, s)], ?_, by simp⟩
+    rw [List.mem_map]
+    exact ⟨(p[n], n), hmem, by rw [hop]⟩
+
+theorem reuse_labels (p : Prog) (l : List ℕ) (hok : labelsOK p l = true) (n s o ls c : ℕ) (a : LAttr)
+    (hn : n < p.length) (hop : p[n] = .reuse s o ls c a) :
+    l.getD o 0 = l.getD n 0 ∧ l.getD ls 0 = l.getD s 0 := by
+  unfold labelsOK at hok
+  simp only [Bool.and_eq_true, List.all_eq_true, beq_iff_eq] at hok
+  obtain ⟨h1, h2⟩ := mem_keptEdges_reuse p n s o ls c a hn hop
+  exact ⟨hok.1.1 (o, n) h1, hok.1.1 (ls, s) h2⟩
+
+/-- what `wellShaped` says about a layer invoked again: the layer is an earlier searchable
+conv / linear node applied to `ls` -/
+theorem reuse_wf (p : Prog) (h : wellShaped p = true) (n s o ls c : ℕ) (a : LAttr) (hn : n < p.length)
+    (hop : p[n] = .reuse s o ls c a) :
+    o < n ∧ ls < o ∧ ((∃ a', getOp p o = .conv ls c a') ∨ (∃ a', getOp p o = .lin ls c a')) := by
+  unfold wellShaped at h
+  simp only [Bool.and_eq_true, List.all_eq_true] at h
+  have hmem : (p[n], n) ∈ p.zipIdx := by
+    rw [List.mem_zipIdx_iff_getElem?]; simp [List.getElem?_eq_getElem hn]
+  have := h.2 (p[n], n) hmem
+  rw [hop] at this
+  simp only [Bool.and_eq_true, decide_eq_true_eq] at this
+  obtain ⟨ho, hm⟩ := this
+  cases hg : getOp p o with
+  | conv s' c' a' =>
+    rw [hg] at hm
+    simp only [Bool.and_eq_true, beq_iff_eq, decide_eq_true_eq] at hm
+    obtain ⟨⟨⟨h1, h2⟩, h3⟩, -⟩ := hm
+    subst h1 h2
+    exact ⟨ho, h3, Or.inl ⟨a', rfl⟩⟩
+  | lin s' c' a' =>
+    rw [hg] at hm
+    simp only [Bool.and_eq_true, beq_iff_eq, decide_eq_true_eq] at hm
+    obtain ⟨⟨⟨h1, h2⟩, h3⟩, -⟩ := hm
+    subst h1 h2
+    exact ⟨ho, h3, Or.inr ⟨a', rfl⟩⟩
+  | _ => rw [hg] at hm; simp at hm
 
 /-! ### the bridge: bookkeeping masks are coherent -/
 
@@ -445,6 +498,7 @@ def SemOK (σ : Sem V) (ms : List (List Bool)) (inp : ℕ → List V) (x : Op ×
   | .add .. => σ.g2 x.2 0 0 = 0
   | .tcat _ => σ.g2 x.2 0 0 = 0
   | .flat .. => ∀ q, σ.sp x.2 q 0 = 0
+  | .reuse _ o _ _ _ => ∀ co ci, σ.L o co ci 0 = 0
   | _ => True
 
 /-- the masks the features calculators report are coherent at every node of a supported,
@@ -533,6 +587,22 @@ theorem coherent_of_bookkeeping (σ : Sem V) (inp : ℕ → List V) (p : Prog) (
     rw [hop] at hs hin hal; simp only [SemOK] at hs
     simp only [maskStep] at hal
     exact ⟨hin s (by simp [Op.inputs]), hal, hs⟩
+  | reuse s o ls c a =>
+    obtain ⟨hon, hlso, hkind⟩ := reuse_wf p hws n s o ls c a hn hop
+    obtain ⟨hlo, hlls⟩ := reuse_labels p l hok n s o ls c a hn hop
+    rw [hop] at hs hin hal hsu; simp only [SemOK] at hs
+    simp only [maskStep] at hal
+    simp only [Bool.and_eq_true, Bool.not_eq_true'] at hsu
+    have hsn := hin s (by simp [Op.inputs])
+    have hol : o < p.length := by omega
+    have halo : (aliveMasks p l α).getD o [] = ownMask p l α o := by
+      rw [alive_eq p l α hsb o hol]
+      rcases hkind with ⟨a', hg⟩ | ⟨a', hg⟩ <;>
+      · rw [getOp_eq p o hol] at hg; rw [hg]; rfl
+    refine ⟨hsn, ?_, ?_, hs⟩
+    · rw [hal, halo]; exact (ownMask_congr p l α o n hlo).symm
+    · rw [hum s (by omega) hsu.1, hum ls (by omega) hsu.2]
+      exact (ownMask_congr p l α ls s hlls).symm
   | output s =>
     rw [hop] at hin hal
     simp only [maskStep] at hal
